@@ -21,6 +21,7 @@ import (
 	"github.com/olric-data/olric"
 	"github.com/olric-data/olric/config"
 	"github.com/olric-data/olric/internal/cluster/partitions"
+	"github.com/olric-data/olric/internal/dmap"
 	"github.com/olric-data/olric/internal/testutil"
 	"github.com/olric-data/olric/internal/verifhook"
 	"github.com/redis/go-redis/v9"
@@ -524,6 +525,34 @@ func init() {
 		}
 		return errClass(m.db.VerifInternals().DMap.VerifPutCopy(a[2], string(unhx(a[3])), kind, unhx(a[4]), i64(a[5]), i64(a[6])))
 	})
+	wbMerge := func(a []string) string {
+		// wb.merge <i> <P|B> <dmap> <keyhex>:<valhex>:<ttl>:<ts> ...   one hand-over per partition
+		m := cl.members[atoi(a[0])]
+		kind := partitions.PRIMARY
+		if a[1] == "B" {
+			kind = partitions.BACKUP
+		}
+		parts := uint64(optInt(cl.opts, "parts", 7))
+		groups := map[uint64][]dmap.VerifEntry{}
+		var order []uint64
+		for _, e := range a[3:] {
+			f := strings.Split(e, ":")
+			key := string(unhx(f[0]))
+			pid := partitions.HKey(a[2], key) % parts
+			if _, ok := groups[pid]; !ok {
+				order = append(order, pid)
+			}
+			groups[pid] = append(groups[pid], dmap.VerifEntry{Key: key, Value: unhx(f[1]), TTL: i64(f[2]), TS: i64(f[3])})
+		}
+		for _, pid := range order {
+			if err := m.db.VerifInternals().DMap.VerifMerge(a[2], kind, pid, groups[pid]); err != nil {
+				return errClass(err)
+			}
+		}
+		return "ok"
+	}
+	register("wb.merge", wbMerge)
+	register("wb.mergex", wbMerge) // same delivery, to a member that does not own the partition
 	register("wb.del", func(a []string) string {
 		m := cl.members[atoi(a[0])]
 		kind := partitions.PRIMARY
